@@ -390,6 +390,8 @@ def hcFix (infos : Array Info) (dyn : Array Dyn) (indices : List Nat) (stuck : N
     | none => Except.error Err.index)
   let isNb (lr : LR) : Bool := decide (mxLr.start ≤ lr.end_) && decide (lr.start ≤ mxLr.end_)
   let nonNb := (lrAt.filter (fun p => !isNb (getInfo infos p.2).lr)).map (·.1)
+  -- fewer than two distinct turns: nothing to swap, the order is left unchanged (no draw is consumed)
+  if tl.size < 2 then pure (indices, draws) else
   let (d0, draws) ← randint draws 100 0
   let (ix1, draws) ←
     if d0 < 30 ∧ !nonNb.isEmpty then do
